@@ -179,11 +179,6 @@ class Model():
         asset.id = asset_id if asset_id is not None else self.next_id
         if asset.id in self.asset_ids:
             raise ValueError(f'Asset index {asset_id} already in use.')
-        self.asset_ids.add(asset.id)
-
-        self.next_id = max(asset.id + 1, self.next_id)
-
-        asset.associations = []
 
         if not hasattr(asset, 'name'):
             asset.name = asset.type + ':' + str(asset.id)
@@ -196,7 +191,13 @@ class Model():
                         f'Asset name {asset.name} is a duplicate'
                         ' and we do not allow duplicates.'
                     )
+
+        # Only reserve the id and the name once the asset is accepted
+        self.asset_ids.add(asset.id)
+        self.next_id = max(asset.id + 1, self.next_id)
         self.asset_names.add(asset.name)
+
+        asset.associations = []
 
         # Optional field for extra asset data
         if not hasattr(asset, 'extras'):
